@@ -6,19 +6,36 @@
  *               param & 15 selects the codec variant (PFOR threshold, float
  *               precision/mode).
  *
- * For every record the harness computes the ground truth from the input
- * (min/max/range/width, runs, Elias code lengths, block structure, ...) and
- * from the bytes the encoder wrote (extent measured with two differently
- * filled destinations, exception list parsed with the reference tagged-varint
- * decoder), and compares it with every metadata field and header accessor the
- * DESIGN entry lists.  Deliberately NOT compared: varintRLEMeta.uniqueValues,
- * varintBP128GetCount on formats without a count header, the PFOR size
- * predictor behind varintAdaptiveReadMeta (only required to be >= the bytes
- * written), fields the readers document as "computed if needed" / "not easily
- * extractable", varintFloatReadMeta/Analyze (declared, not defined). */
+ * No property fixes the byte layout of the array codecs (only the scalar
+ * families have a pinned wire format, C04), so this harness never parses a
+ * header or payload itself.  Its oracles are
+ *  (1) semantic truth computable from the INPUT alone: count, minimum,
+ *      maximum/range, the number of maximal runs (lower bound on run counts),
+ *      the normalised width 1/2/4/8 of a group field, the mathematical Elias
+ *      code lengths, BP128 block structure from VARINT_BP128_BLOCK_SIZE, the
+ *      bit width of the largest packed number;
+ *  (2) the encoder's return value against every reported encoded size and
+ *      against the extent of the bytes it really modified (two destinations
+ *      with complementary fill);
+ *  (3) agreement between sources for quantities that are the encoder's own
+ *      choice (FOR/PFOR width, PFOR exception count and marker, RLE run
+ *      count, adaptive encoding type): encoder meta == header reader ==
+ *      decoder-side meta, plus plausibility from the input (1 <= width <= 8,
+ *      the range fits the width, marker == all-ones of `width` bytes, every
+ *      value whose offset cannot be stored in `width` bytes is an exception,
+ *      exceptionCount <= count, maximal runs <= runCount <= count);
+ *  (4) decoding: the reported count equals the number of elements decoding
+ *      yields; RLE runs are walked with the library's own varintRLEDecodeRun;
+ *      k records back to back are re-found from the reported sizes alone.
+ * Deliberately NOT compared: varintRLEMeta.uniqueValues, varintBP128GetCount
+ * on formats without a count header, the PFOR size predictor behind
+ * varintAdaptiveReadMeta (only required to be >= the bytes written), the
+ * "header bytes" returned by varintPFORReadMeta / varintAdaptiveReadMeta
+ * beyond 0 < header <= bytes written, fields the readers document as
+ * "computed if needed" / "not easily extractable", varintFloatReadMeta/Analyze
+ * (declared, not defined). */
 #include "c13_codecs.h"
 #include "varintFloat.h"
-#include "vf_ref.h"
 
 const char *vf_prop_id = "C16";
 const size_t vf_case_maxlen = 200;
@@ -218,11 +235,25 @@ static size_t raw_encode(const rec *R, uint8_t *dst, metas *m) {
         }                                                                      \
     } while (0)
 
+/* agreement between two sources that report the same quantity */
+#define AGREE(site, kind, what, got, other, want)                              \
+    do {                                                                       \
+        uint64_t got_ = (uint64_t)(got), want_ = (uint64_t)(want);             \
+        if (got_ != want_) {                                                   \
+            vf_fail(rep, site, kind,                                           \
+                    "%s n=%zu%s: %s = %llu (0x%llx) but %s = %llu (0x%llx)",   \
+                    m_name[R->k], R->n, where, what,                           \
+                    (unsigned long long)got_, (unsigned long long)got_, other, \
+                    (unsigned long long)want_, (unsigned long long)want_);     \
+            return 0;                                                          \
+        }                                                                      \
+    } while (0)
+
 /* decode the record at `src` with exactly its own capacity; returns count (for
  * float: bytes consumed); output in *out (malloc'd, *outbytes long) */
 static size_t raw_decode(const rec *R, const uint8_t *src, void **out,
                          size_t *outbytes, varintAdaptiveMeta *am,
-                         uint8_t *fields) {
+                         uint8_t *fields, varintPFORMeta *pm) {
     const size_t n = R->n;
     const size_t esz = m_is32(R->k) ? 4 : 8;
     void *o = vf_exact_alloc(n * esz);
@@ -234,11 +265,9 @@ static size_t raw_decode(const rec *R, const uint8_t *src, void **out,
         return varintFORDecode(src, (uint64_t *)o, n);
     case M_FOR_BATCH:
         return varintFORBatchDecode(src, (uint64_t *)o, n);
-    case M_PFOR: {
-        varintPFORMeta dm;
-        memset(&dm, 0, sizeof(dm)); /* documented: width == 0 => read header */
-        return varintPFORDecode(src, (uint64_t *)o, &dm);
-    }
+    case M_PFOR:
+        memset(pm, 0, sizeof(*pm)); /* documented: width == 0 => read header */
+        return varintPFORDecode(src, (uint64_t *)o, pm);
     case M_GROUP:
         return varintGroupDecode(src, (uint64_t *)o, fields, n);
     case M_RLE:
@@ -264,50 +293,155 @@ static size_t raw_decode(const rec *R, const uint8_t *src, void **out,
     }
 }
 
-/* ---- ground truth helpers ------------------------------------------------ */
-static void truth_runs(const uint64_t *v, size_t n, size_t *runs, size_t *size) {
-    size_t r = 0, s = 0, len = 1;
-    for (size_t i = 1; i <= n; i++) {
-        if (i < n && v[i] == v[i - 1]) {
-            len++;
-        } else {
-            s += c13_taglen(len) + c13_taglen(v[i - 1]);
+/* ---- ground truth helpers (from the input alone) -------------------------- */
+/* number of maximal runs: no encoder can describe the array with fewer */
+static size_t truth_maxruns(const uint64_t *v, size_t n) {
+    size_t r = 1;
+    for (size_t i = 1; i < n; i++) {
+        if (v[i] != v[i - 1]) {
             r++;
-            len = 1;
         }
     }
-    *runs = r;
-    *size = s;
+    return r;
 }
 
-/* BP128: documented block layout -> size, block count, last block, max width.
- * d[] are the numbers that get packed (values, or deltas for the delta
- * formats), cnt of them; header64 = blocks carry "0x80|w, count" only when
- * partial (both families) */
-static void truth_bp128(const uint64_t *d, size_t cnt, size_t *bytes,
-                        size_t *blocks, size_t *last, unsigned *maxw) {
-    size_t by = 0, bl = 0, la = 0;
-    unsigned mw = 0;
-    for (size_t i = 0; i < cnt; i += 128) {
-        size_t bs = cnt - i < 128 ? cnt - i : 128;
-        uint64_t mx = 0;
-        for (size_t j = 0; j < bs; j++) {
-            if (d[i + j] > mx) {
-                mx = d[i + j];
+static uint64_t all_ones(unsigned w) {
+    return w >= 8 ? UINT64_MAX : (1ULL << (8 * w)) - 1;
+}
+
+/* PFOR.  Which width the encoder chooses and which values it patches are its
+ * own business (percentile range, marker-collision handling), and so is the
+ * way it stores them.  What the input fixes: min, count, 1 <= width <= 8, the
+ * marker is the all-ones value of `width` bytes (the documented concept of the
+ * marker), every value whose offset from min does not fit `width` bytes must
+ * be an exception, and there cannot be more exceptions than values. */
+static int pfor_plausible(vf_report *rep, const rec *R, const char *where,
+                          const char *site, const char *src,
+                          const varintPFORMeta *A, uint64_t mn) {
+    char l[96];
+    snprintf(l, sizeof(l), "%s.min", src);
+    CHK(site, "field", l, A->min, mn);
+    snprintf(l, sizeof(l), "%s.count", src);
+    CHK(site, "count", l, A->count, R->n);
+    unsigned w = (unsigned)A->width;
+    if (w < 1 || w > 8) {
+        vf_fail(rep, site, "field", "%s n=%zu%s: %s.width = %u is not 1..8",
+                m_name[R->k], R->n, where, src, w);
+        return 0;
+    }
+    snprintf(l, sizeof(l), "%s.exceptionMarker", src);
+    AGREE(site, "field", l, A->exceptionMarker,
+          "the all-ones value of the reported width", all_ones(w));
+    size_t need = 0;
+    if (w < 8) {
+        for (size_t i = 0; i < R->n; i++) {
+            if (R->v[i] - mn > all_ones(w)) {
+                need++;
             }
         }
-        unsigned w = c13_bits(mx);
-        if (w > mw) {
-            mw = w;
-        }
-        by += (bs < 128 ? 2 : 1) + (bs * w + 7) / 8;
-        bl++;
-        la = bs;
     }
-    *bytes = by;
-    *blocks = bl;
-    *last = la;
-    *maxw = mw;
+    if (A->exceptionCount < need || A->exceptionCount > R->n) {
+        vf_fail(rep, site, "count",
+                "%s n=%zu%s: %s.exceptionCount = %u with %s.width = %u, but "
+                "%zu of the %zu values have an offset from the minimum that "
+                "does not fit %u bytes",
+                m_name[R->k], R->n, where, src, (unsigned)A->exceptionCount,
+                src, w, need, R->n, w);
+        return 0;
+    }
+    if (need > 0) {
+        vf_class("pfor.unrepresentable");
+    }
+    return 1;
+}
+
+/* a second source (header reader, decoder-side meta) against the first */
+static int pfor_agree(vf_report *rep, const rec *R, const char *where,
+                      const char *site, const char *srcB,
+                      const varintPFORMeta *B, const char *srcA,
+                      const varintPFORMeta *A, uint64_t mn) {
+    char l[96], o[96];
+    snprintf(l, sizeof(l), "%s.min", srcB);
+    CHK(site, "field", l, B->min, mn);
+    snprintf(l, sizeof(l), "%s.count", srcB);
+    CHK(site, "count", l, B->count, R->n);
+    snprintf(l, sizeof(l), "%s.width", srcB);
+    snprintf(o, sizeof(o), "%s.width", srcA);
+    AGREE(site, "field", l, B->width, o, A->width);
+    snprintf(l, sizeof(l), "%s.exceptionCount", srcB);
+    snprintf(o, sizeof(o), "%s.exceptionCount", srcA);
+    AGREE(site, "count", l, B->exceptionCount, o, A->exceptionCount);
+    snprintf(l, sizeof(l), "%s.exceptionMarker", srcB);
+    snprintf(o, sizeof(o), "%s.exceptionMarker", srcA);
+    AGREE(site, "field", l, B->exceptionMarker, o, A->exceptionMarker);
+    return 1;
+}
+
+/* FOR: the offset width is the encoder's choice; the input fixes 1..8 and
+ * that the range fits it */
+static int for_width_plausible(vf_report *rep, const rec *R, const char *where,
+                               const char *site, const char *what, unsigned w,
+                               uint64_t range) {
+    if (w < 1 || w > 8 || range > all_ones(w)) {
+        vf_fail(rep, site, "field",
+                "%s n=%zu%s: %s = %u cannot hold the range %llu of the input "
+                "(needs 1..8 bytes, at least %u)",
+                m_name[R->k], R->n, where, what, w, (unsigned long long)range,
+                c13_extwidth(range));
+        return 0;
+    }
+    return 1;
+}
+
+/* RLE, on a headerless encoding pb[0..plain) of the array: the runs are walked
+ * with the library's own varintRLEDecodeRun; their number is the truth for
+ * every reported run count (encoder meta `rc`, Analyze, GetRunCount) */
+static int rle_plain_check(vf_report *rep, const rec *R, const char *where,
+                           const char *S_meta, const char *S_acc,
+                           const uint8_t *pb, size_t plain, size_t rc,
+                           size_t rc_plain) {
+    const size_t n = R->n;
+    size_t pos = 0, runs = 0, total = 0;
+    while (pos < plain && total < n) {
+        size_t rl = 0;
+        uint64_t val = 0;
+        size_t c = varintRLEDecodeRun(pb + pos, &rl, &val);
+        if (c == 0 || rl == 0 || rl > n - total || c > plain - pos) {
+            vf_fail(rep, S_acc, "walk",
+                    "%s n=%zu%s: varintRLEDecodeRun at offset %zu of the %zu "
+                    "bytes the headerless encoder returned: %zu bytes, run "
+                    "length %zu, after %zu runs covering %zu elements",
+                    m_name[R->k], n, where, pos, plain, c, rl, runs, total);
+            return 0;
+        }
+        pos += c;
+        total += rl;
+        runs++;
+    }
+    CHK(S_acc, "count", "elements covered by the runs varintRLEDecodeRun finds",
+        total, n);
+    size_t lo = truth_maxruns(R->v, n);
+    if (runs < lo) {
+        vf_fail(rep, S_acc, "count",
+                "%s n=%zu%s: %zu runs found with varintRLEDecodeRun, the input "
+                "has %zu maximal runs",
+                m_name[R->k], n, where, runs, lo);
+        return 0;
+    }
+    const char *truth = "runs found with varintRLEDecodeRun";
+    AGREE(S_meta, "count", "meta.runCount", rc, truth, runs);
+    AGREE(S_meta, "count", "meta.runCount of the headerless encoder", rc_plain,
+          truth, runs);
+    AGREE(S_acc, "count", "varintRLEGetRunCount(encoded, size)",
+          varintRLEGetRunCount(pb, plain), truth, runs);
+    varintRLEMeta an;
+    memset(&an, POISON, sizeof(an));
+    (void)varintRLEAnalyze(R->v, n, &an);
+    CHK(S_meta, "count", "Analyze.count", an.count, n);
+    AGREE(S_meta, "count", "Analyze.runCount", an.runCount, truth, runs);
+    AGREE(S_meta, "size", "Analyze.encodedSize", an.encodedSize,
+          "bytes written by varintRLEEncode", plain);
+    return 1;
 }
 
 /* measured extent of an encode: 1 + index of the last byte the encoder
@@ -382,109 +516,60 @@ static int rec_check(vf_report *rep, rec *R, uint8_t *dst, const char *where,
     switch (k) {
     case M_FOR:
     case M_FOR_BATCH: {
-        unsigned w = c13_extwidth(mx - mn);
-        size_t size = c13_taglen(mn) + 1 + c13_taglen(n) + n * w;
         CHK(S_meta, "field", "meta.minValue", m.f.minValue, mn);
         CHK(S_meta, "field", "meta.maxValue", m.f.maxValue, mx);
         CHK(S_meta, "field", "meta.range", m.f.range, mx - mn);
-        CHK(S_meta, "field", "meta.offsetWidth", m.f.offsetWidth, w);
         CHK(S_meta, "count", "meta.count", m.f.count, n);
         CHK(S_meta, "size", "meta.encodedSize", m.f.encodedSize, R->written);
-        CHK(S_meta, "size", "encoder return vs. documented layout", R->written,
-            size);
+        if (!for_width_plausible(rep, R, where, S_meta, "meta.offsetWidth",
+                                 (unsigned)m.f.offsetWidth, mx - mn)) {
+            return 0;
+        }
         varintFORMeta rm;
         memset(&rm, POISON, sizeof(rm));
         varintFORReadMetadata(dst, &rm);
         CHK(S_read, "field", "ReadMetadata.minValue", rm.minValue, mn);
         CHK(S_read, "count", "ReadMetadata.count", rm.count, n);
-        CHK(S_read, "field", "ReadMetadata.offsetWidth", rm.offsetWidth, w);
+        AGREE(S_read, "field", "ReadMetadata.offsetWidth", rm.offsetWidth,
+              "the encoder's meta.offsetWidth", m.f.offsetWidth);
         CHK(S_read, "size", "ReadMetadata.encodedSize", rm.encodedSize,
             R->written);
         CHK(S_acc, "count", "varintFORGetCount", varintFORGetCount(dst), n);
         CHK(S_acc, "field", "varintFORGetMinValue", varintFORGetMinValue(dst),
             mn);
-        CHK(S_acc, "field", "varintFORGetOffsetWidth",
-            varintFORGetOffsetWidth(dst), w);
+        AGREE(S_acc, "field", "varintFORGetOffsetWidth",
+              varintFORGetOffsetWidth(dst), "the encoder's meta.offsetWidth",
+              m.f.offsetWidth);
         R->reported = rm.encodedSize;
         break;
     }
     case M_PFOR: {
-        /* The width is a choice of the encoder (which percentile range it
-         * covers, and how a repair resolves the marker collision of DESIGN
-         * section 6 #2, may change it), so the truth is the width byte of the
-         * documented layout [min][width][count][values][exceptions]; the
-         * layout walk below fails if that byte does not describe the value
-         * area. */
-        unsigned w = dst[c13_taglen(mn)];
-        if (w < 1 || w > 8) {
-            vf_fail(rep, S_meta, "field",
-                    "%s n=%zu%s: stored width byte %u is not 1..8", m_name[k],
-                    n, where, w);
+        if (!pfor_plausible(rep, R, where, S_meta, "meta", &m.p, mn)) {
             return 0;
         }
-        uint64_t marker = w >= 8 ? UINT64_MAX : (1ULL << (8 * w)) - 1;
-        size_t hdr = c13_taglen(mn) + 1 + c13_taglen(n);
-        CHK(S_meta, "field", "meta.min", m.p.min, mn);
-        CHK(S_meta, "field", "meta.width", m.p.width, w);
-        CHK(S_meta, "count", "meta.count", m.p.count, n);
-        CHK(S_meta, "field", "meta.exceptionMarker", m.p.exceptionMarker,
-            marker);
-        /* the exception list as stored: count, then (index, value) pairs that
-         * must end exactly where the encoder says the record ends */
-        size_t pos = hdr + n * w;
-        if (pos >= R->written) {
-            vf_fail(rep, S_meta, "size",
-                    "%s n=%zu%s: header + values = %zu bytes, encoder "
-                    "returned %zu",
-                    m_name[k], n, where, pos, R->written);
-            return 0;
-        }
-        uint64_t stored = 0;
-        pos += vf_ref_decode(VF_TAGGED, dst + pos, 0, &stored);
-        uint64_t previdx = 0;
-        for (uint64_t i = 0; i < stored && pos < R->written; i++) {
-            uint64_t idx = 0, val = 0;
-            pos += vf_ref_decode(VF_TAGGED, dst + pos, 0, &idx);
-            pos += vf_ref_decode(VF_TAGGED, dst + pos, 0, &val);
-            if (idx >= n || (i > 0 && idx <= previdx)) {
-                vf_fail(rep, S_meta, "field",
-                        "%s n=%zu%s: exception %llu has index %llu (previous "
-                        "%llu)",
-                        m_name[k], n, where, (unsigned long long)i,
-                        (unsigned long long)idx, (unsigned long long)previdx);
-                return 0;
-            }
-            previdx = idx;
-            if (i + 1 < stored && pos >= R->written) {
-                pos = R->written + 1; /* list runs past the record */
-            }
-        }
-        CHK(S_meta, "size",
-            "end of the stored exception list vs. encoder return", pos,
-            R->written);
-        CHK(S_meta, "count", "meta.exceptionCount", m.p.exceptionCount, stored);
         varintPFORMeta rm;
         memset(&rm, 0, sizeof(rm));
         size_t hb = varintPFORReadMeta(dst, &rm);
-        CHK(S_read, "size", "ReadMeta return (header bytes)", hb, hdr);
-        CHK(S_read, "field", "ReadMeta.min", rm.min, mn);
-        CHK(S_read, "field", "ReadMeta.width", rm.width, w);
-        CHK(S_read, "count", "ReadMeta.count", rm.count, n);
-        CHK(S_read, "count", "ReadMeta.exceptionCount", rm.exceptionCount,
-            stored);
-        CHK(S_read, "field", "ReadMeta.exceptionMarker", rm.exceptionMarker,
-            marker);
-        if (stored > 0) {
+        if (hb == 0 || hb > R->written) {
+            vf_fail(rep, S_read, "size",
+                    "%s n=%zu%s: ReadMeta returned %zu header bytes for a "
+                    "record of %zu bytes",
+                    m_name[k], n, where, hb, R->written);
+            return 0;
+        }
+        if (!pfor_agree(rep, R, where, S_read, "ReadMeta", &rm,
+                        "the encoder's meta", &m.p, mn)) {
+            return 0;
+        }
+        if (m.p.exceptionCount > 0) {
             vf_class("pfor.exceptions");
         }
         break;
     }
     case M_GROUP: {
-        size_t size = 1 + (2 * n + 7) / 8;
         for (size_t i = 0; i < n; i++) {
             unsigned ew = c13_extwidth(v[i]);
             unsigned w = ew <= 1 ? 1 : ew <= 2 ? 2 : ew <= 4 ? 4 : 8;
-            size += w;
             varintWidth gw = varintGroupGetFieldWidth(dst, (uint8_t)i);
             if ((unsigned)gw != w) {
                 vf_fail(rep, S_acc, "field",
@@ -495,8 +580,6 @@ static int rec_check(vf_report *rep, rec *R, uint8_t *dst, const char *where,
                 return 0;
             }
         }
-        CHK(S_meta, "size", "encoder return vs. documented layout", R->written,
-            size);
         CHK(S_acc, "size", "varintGroupGetSize", varintGroupGetSize(dst),
             R->written);
         CHK(S_acc, "count", "varintGroupGetFieldCount",
@@ -508,27 +591,41 @@ static int rec_check(vf_report *rep, rec *R, uint8_t *dst, const char *where,
     }
     case M_RLE:
     case M_RLE_HDR: {
-        size_t runs, body;
-        truth_runs(v, n, &runs, &body);
-        size_t hdr = k == M_RLE_HDR ? c13_taglen(n) : 0;
         CHK(S_meta, "count", "meta.count", m.r.count, n);
-        CHK(S_meta, "count", "meta.runCount", m.r.runCount, runs);
         CHK(S_meta, "size", "meta.encodedSize", m.r.encodedSize, R->written);
-        CHK(S_meta, "size", "encoder return vs. documented layout", R->written,
-            hdr + body);
-        varintRLEMeta an;
-        memset(&an, POISON, sizeof(an));
-        (void)varintRLEAnalyze(v, n, &an);
-        CHK(S_meta, "count", "Analyze.count", an.count, n);
-        CHK(S_meta, "count", "Analyze.runCount", an.runCount, runs);
-        CHK(S_meta, "size", "Analyze.encodedSize (headerless body)",
-            an.encodedSize, body);
-        if (k == M_RLE_HDR) {
-            CHK(S_acc, "count", "varintRLEGetCount", varintRLEGetCount(dst), n);
+        if (m.r.runCount > n) {
+            vf_fail(rep, S_meta, "count",
+                    "%s n=%zu%s: meta.runCount = %zu, more runs than elements",
+                    m_name[k], n, where, m.r.runCount);
+            return 0;
         }
-        CHK(S_acc, "count", "varintRLEGetRunCount(body, size)",
-            varintRLEGetRunCount(dst + hdr, R->written - hdr), runs);
-        if (runs >= 2) {
+        int ok;
+        if (k == M_RLE) {
+            ok = rle_plain_check(rep, R, where, S_meta, S_acc, dst, R->written,
+                                 m.r.runCount, m.r.runCount);
+        } else {
+            /* Analyze, GetRunCount and DecodeRun speak about the headerless
+             * form: encode the same array once more without the header */
+            CHK(S_acc, "count", "varintRLEGetCount", varintRLEGetCount(dst), n);
+            uint8_t *pb = c13_dst(n, 0x5A);
+            varintRLEMeta pm;
+            memset(&pm, POISON, sizeof(pm));
+            size_t plain = varintRLEEncode(pb, v, n, &pm);
+            if (plain == 0 || plain > c13_bound(n) - 64) {
+                vf_fail(rep, S_meta, "size",
+                        "%s n=%zu%s: the headerless encoder returned %zu",
+                        m_name[k], n, where, plain);
+                ok = 0;
+            } else {
+                ok = rle_plain_check(rep, R, where, S_meta, S_acc, pb, plain,
+                                     m.r.runCount, pm.runCount);
+            }
+            free(pb);
+        }
+        if (!ok) {
+            return 0;
+        }
+        if (truth_maxruns(v, n) >= 2) {
             vf_class("rle.runs>=2");
         }
         R->reported = m.r.encodedSize;
@@ -543,8 +640,9 @@ static int rec_check(vf_report *rep, rec *R, uint8_t *dst, const char *where,
         CHK(S_meta, "count", "meta.count", m.e.count, n);
         CHK(S_meta, "size", "meta.totalBits", m.e.totalBits, bits);
         CHK(S_meta, "size", "meta.encodedBytes", m.e.encodedBytes, R->written);
-        CHK(S_meta, "size", "encoder return vs. ceil(totalBits/8)", R->written,
-            (bits + 7) / 8);
+        /* varintElias.h documents the field as "Ceiling of totalBits/8" */
+        CHK(S_meta, "size", "meta.encodedBytes vs. ceil(meta.totalBits/8)",
+            m.e.encodedBytes, (m.e.totalBits + 7) / 8);
         R->bits = m.e.totalBits;
         R->reported = m.e.encodedBytes;
         break;
@@ -553,30 +651,25 @@ static int rec_check(vf_report *rep, rec *R, uint8_t *dst, const char *where,
     case M_BP64:
     case M_BPD32:
     case M_BPD64: {
+        /* the numbers that get packed: the values, or for the delta formats
+         * the n-1 differences; blocks of VARINT_BP128_BLOCK_SIZE of them */
         int delta = k == M_BPD32 || k == M_BPD64;
         size_t cnt = delta ? n - 1 : n;
-        uint64_t *d = (uint64_t *)malloc((cnt ? cnt : 1) * sizeof(uint64_t));
-        if (!d) {
-            abort();
-        }
+        uint64_t pmax = 0;
         for (size_t i = 0; i < cnt; i++) {
-            d[i] = delta ? v[i + 1] - v[i] : v[i];
+            uint64_t d = delta ? v[i + 1] - v[i] : v[i];
+            if (d > pmax) {
+                pmax = d;
+            }
         }
-        size_t by, bl, la;
-        unsigned mw;
-        truth_bp128(d, cnt, &by, &bl, &la, &mw);
-        free(d);
-        if (k == M_BP64) {
-            by += c13_taglen(n); /* count header */
-        } else if (delta) {
-            by += c13_taglen(v[0]); /* first value */
-        }
+        const size_t B = VARINT_BP128_BLOCK_SIZE;
+        size_t bl = (cnt + B - 1) / B;
+        size_t la = cnt ? (cnt - 1) % B + 1 : 0;
         CHK(S_meta, "count", "meta.count", m.b.count, n);
         CHK(S_meta, "count", "meta.blockCount", m.b.blockCount, bl);
         CHK(S_meta, "size", "meta.encodedBytes", m.b.encodedBytes, R->written);
-        CHK(S_meta, "size", "encoder return vs. documented layout", R->written,
-            by);
-        CHK(S_meta, "field", "meta.maxBitWidth", m.b.maxBitWidth, mw);
+        CHK(S_meta, "field", "meta.maxBitWidth", m.b.maxBitWidth,
+            c13_bits(pmax));
         if (bl > 0) {
             /* "values in last (partial) block"; without any block (delta
              * format, one value) there is nothing to compare with */
@@ -586,7 +679,7 @@ static int rec_check(vf_report *rep, rec *R, uint8_t *dst, const char *where,
             CHK(S_acc, "count", "varintBP128GetCount",
                 varintBP128GetCount(dst, R->written), n);
         }
-        if (cnt % 128 == 0) {
+        if (cnt % B == 0) {
             vf_class("bp128.lastBlockFull");
         }
         R->reported = m.b.encodedBytes;
@@ -595,16 +688,17 @@ static int rec_check(vf_report *rep, rec *R, uint8_t *dst, const char *where,
     case M_FLOAT:
         break;
     default: { /* adaptive */
-        unsigned type = dst[0];
+        unsigned type = (unsigned)varintAdaptiveGetEncodingType(dst);
         if (type > VARINT_ADAPTIVE_TAGGED) {
-            vf_fail(rep, S_meta, "field",
-                    "%s n=%zu%s: header byte %u is not one of the six "
-                    "encodings",
+            vf_fail(rep, S_acc, "field",
+                    "%s n=%zu%s: varintAdaptiveGetEncodingType = %u is not "
+                    "one of the six encodings",
                     m_name[k], n, where, type);
             return 0;
         }
         if (k != M_AD_AUTO) {
-            CHK(S_meta, "field", "header byte vs. requested encoding", type,
+            CHK(S_acc, "field",
+                "varintAdaptiveGetEncodingType vs. requested encoding", type,
                 ad_type[k - M_AD_DELTA]);
         } else {
             char cls[64];
@@ -613,21 +707,45 @@ static int rec_check(vf_report *rep, rec *R, uint8_t *dst, const char *where,
                          (varintAdaptiveEncodingType)type));
             vf_class(cls);
         }
-        CHK(S_meta, "field", "meta.encodingType", m.a.encodingType, type);
+        AGREE(S_meta, "field", "meta.encodingType", m.a.encodingType,
+              "varintAdaptiveGetEncodingType", type);
         CHK(S_meta, "count", "meta.originalCount", m.a.originalCount, n);
         CHK(S_meta, "size", "meta.encodedSize", m.a.encodedSize, R->written);
-        CHK(S_acc, "field", "varintAdaptiveGetEncodingType",
-            varintAdaptiveGetEncodingType(dst), type);
         varintAdaptiveMeta rm;
         memset(&rm, POISON, sizeof(rm));
         size_t hb = varintAdaptiveReadMeta(dst, &rm);
-        CHK(S_read, "size", "ReadMeta return (header bytes)", hb, 1);
-        CHK(S_read, "field", "ReadMeta.encodingType", rm.encodingType, type);
+        if (hb == 0 || hb > R->written) {
+            vf_fail(rep, S_read, "size",
+                    "%s n=%zu%s: ReadMeta returned %zu header bytes for a "
+                    "record of %zu bytes",
+                    m_name[k], n, where, hb, R->written);
+            return 0;
+        }
+        AGREE(S_read, "field", "ReadMeta.encodingType", rm.encodingType,
+              "varintAdaptiveGetEncodingType", type);
         if (type == VARINT_ADAPTIVE_FOR) {
+            const varintFORMeta *ef = &m.a.encodingMeta.forMeta;
+            const varintFORMeta *rf = &rm.encodingMeta.forMeta;
             CHK(S_read, "count", "ReadMeta.originalCount (FOR)",
                 rm.originalCount, n);
             CHK(S_read, "size", "ReadMeta.encodedSize (FOR)", rm.encodedSize,
                 R->written);
+            CHK(S_meta, "field", "meta.encodingMeta.forMeta.minValue",
+                ef->minValue, mn);
+            CHK(S_meta, "count", "meta.encodingMeta.forMeta.count", ef->count,
+                n);
+            if (!for_width_plausible(rep, R, where, S_meta,
+                                     "meta.encodingMeta.forMeta.offsetWidth",
+                                     (unsigned)ef->offsetWidth, mx - mn)) {
+                return 0;
+            }
+            CHK(S_read, "field", "ReadMeta.encodingMeta.forMeta.minValue",
+                rf->minValue, mn);
+            CHK(S_read, "count", "ReadMeta.encodingMeta.forMeta.count",
+                rf->count, n);
+            AGREE(S_read, "field", "ReadMeta.encodingMeta.forMeta.offsetWidth",
+                  rf->offsetWidth, "the encoder's forMeta.offsetWidth",
+                  ef->offsetWidth);
         } else if (type == VARINT_ADAPTIVE_PFOR) {
             CHK(S_read, "count", "ReadMeta.originalCount (PFOR)",
                 rm.originalCount, n);
@@ -636,6 +754,16 @@ static int rec_check(vf_report *rep, rec *R, uint8_t *dst, const char *where,
                         "%s n=%zu%s: ReadMeta.encodedSize (PFOR worst-case "
                         "predictor) = %zu is less than the %zu bytes written",
                         m_name[k], n, where, rm.encodedSize, R->written);
+                return 0;
+            }
+            if (!pfor_plausible(rep, R, where, S_meta,
+                                "meta.encodingMeta.pforMeta",
+                                &m.a.encodingMeta.pforMeta, mn) ||
+                !pfor_agree(rep, R, where, S_read,
+                            "ReadMeta.encodingMeta.pforMeta",
+                            &rm.encodingMeta.pforMeta,
+                            "the encoder's pforMeta",
+                            &m.a.encodingMeta.pforMeta, mn)) {
                 return 0;
             }
         }
@@ -647,8 +775,10 @@ static int rec_check(vf_report *rep, rec *R, uint8_t *dst, const char *where,
     /* the reported count equals the number of elements decoding yields */
     varintAdaptiveMeta dm;
     memset(&dm, POISON, sizeof(dm));
+    varintPFORMeta dpm;
+    memset(&dpm, 0, sizeof(dpm));
     uint8_t fields = 0xEE;
-    size_t r = raw_decode(R, dst, &R->dec, &R->decbytes, &dm, &fields);
+    size_t r = raw_decode(R, dst, &R->dec, &R->decbytes, &dm, &fields, &dpm);
     if (vf_exact_check(R->dec)) {
         vf_fail(rep, S_dec, "canary",
                 "%s n=%zu%s: decoding with capacity n wrote behind the output",
@@ -664,11 +794,26 @@ static int rec_check(vf_report *rep, rec *R, uint8_t *dst, const char *where,
         CHK(S_dec, "count", "field count from varintGroupDecode", fields, n);
     } else {
         CHK(S_dec, "count", "elements yielded by the decoder", r, n);
+        if (k == M_PFOR) {
+            /* the decoder fills the caller's zeroed meta from the record */
+            if (!pfor_agree(rep, R, where, S_dec, "decode-side meta", &dpm,
+                            "the encoder's meta", &m.p, mn)) {
+                return 0;
+            }
+        }
         if (m_is_adaptive(k)) {
+            unsigned type = (unsigned)varintAdaptiveGetEncodingType(dst);
             CHK(S_dec, "count", "decode-side meta.originalCount",
                 dm.originalCount, r);
-            CHK(S_dec, "field", "decode-side meta.encodingType",
-                dm.encodingType, dst[0]);
+            AGREE(S_dec, "field", "decode-side meta.encodingType",
+                  dm.encodingType, "varintAdaptiveGetEncodingType", type);
+            if (type == VARINT_ADAPTIVE_PFOR &&
+                !pfor_agree(rep, R, where, S_dec,
+                            "decode-side meta.encodingMeta.pforMeta",
+                            &dm.encodingMeta.pforMeta, "the encoder's pforMeta",
+                            &m.a.encodingMeta.pforMeta, mn)) {
+                return 0;
+            }
         }
     }
     if (extent && k != M_GAMMA && k != M_EDELTA) {
@@ -754,13 +899,19 @@ static void run_records(vf_report *rep, rec *R, size_t nrec) {
         off += R[j].reported;
     }
     /* re-find every record from the reported sizes alone */
+    /* one metadata struct serves all the decodes of the walk, as in a caller
+     * that steps through records: each decode sees what the previous one (of
+     * another record) left in it */
+    varintAdaptiveMeta dm;
+    varintPFORMeta dpm;
+    memset(&dm, 0, sizeof(dm));
     for (size_t j = 0; j < nrec && ok && !rep->violated; j++) {
         rec *Q = &R[j];
         void *out = NULL;
         size_t outbytes = 0;
-        varintAdaptiveMeta dm;
         uint8_t fields = 0;
-        size_t r = raw_decode(Q, w + offs[j], &out, &outbytes, &dm, &fields);
+        size_t r =
+            raw_decode(Q, w + offs[j], &out, &outbytes, &dm, &fields, &dpm);
         size_t want = Q->k == M_FLOAT || Q->k == M_GROUP ? Q->written : Q->n;
         if (r != want || outbytes != Q->decbytes ||
             memcmp(out, Q->dec, outbytes) != 0) {
